@@ -198,7 +198,31 @@ pub fn variants(ag: &AG, full: bool) -> Vec<(String, Geometry<f64>)> {
         let (t, g) = out[i].clone();
         out.push((format!("GC[{}]", t), wrap(g)));
     }
+    // the same coordinates with zeros written as -0.0 (every one / every other one): -0.0 == 0.0, the point set is the same
+    if n > 0 {
+        let (t, g) = out[0].clone();
+        out.push((format!("{}/negzero", t), neg_zeros(&g, 0)));
+        out.push((format!("{}/negzero-alternating", t), neg_zeros(&g, 1)));
+    }
     out
+}
+
+/// `g` with zero coordinates written as -0.0: pattern 0 = every zero, 1 = every other zero (in traversal order)
+pub fn neg_zeros(g: &Geometry<f64>, pattern: usize) -> Geometry<f64> {
+    let k = std::cell::Cell::new(0usize);
+    let nz = |v: f64| -> f64 {
+        if v == 0.0 {
+            k.set(k.get() + 1);
+            if pattern == 0 || k.get() % 2 == 1 {
+                -0.0
+            } else {
+                0.0
+            }
+        } else {
+            v
+        }
+    };
+    map_geom_g(g, &|c| Coord { x: nz(c.x), y: nz(c.y) })
 }
 
 /// The families of DESIGN.md §3. `level` 0 = smallest (quick), larger = thorough.
